@@ -55,7 +55,22 @@ def grammar_cases(rng, f):
         f[: len(f) // 2], f[:-1], f[:-4], f[:7], b"junk\x01" + f, b"9=3\x01" + f, f + f[:9],
         s.replace("\x0156=", "\x0155=A\x0155=B\x0156=").encode("latin-1"),
         s.replace("\x0156=", "\x0178=1\x0179=a\x0149=Z\x0156=").encode("latin-1"),
+        f + b"1=evil\x01", f[:-1] + b"\x011=evil\x01",
     ]
+
+
+def dup_checksum_cases(f):
+    """frames with TWO CheckSum fields: the earlier one consistent with the bytes before the last field,
+    the trailing one wrong (and the mirror image)"""
+    out = []
+    base = f[:-7]
+    for x in range(256):
+        cand = base + b"10=%03d" % x
+        if (sum(cand) + 1) % 256 == x:
+            out.append(cand + b"\x0110=%03d\x01" % ((x + 7) % 256))
+            break
+    out.append(base + b"10=999\x01" + f[-7:])
+    return out
 
 
 def bodylength_value(raw):
@@ -80,7 +95,32 @@ def classify_decode(raw, res):
     return None
 
 
+def accept_unsound(res):
+    """a returned message must come from a frame whose LAST field is a CheckSum consistent with all bytes before it"""
+    if res[0] != 0 or not res[1] or not res[3]:
+        return None
+    r = bytes(res[3][0])
+    body = r[:-1] if r.endswith(b"\x01") else r
+    i = body.rfind(b"\x01")
+    last = body[i + 1:]
+    if not last.startswith(b"10="):
+        return ("a field follows the CheckSum field and is outside the sum", "D8-fields-after-checksum")
+    v = last[3:]
+    try:
+        ok = int(v) == sum(r[:i + 1]) % 256
+    except ValueError:
+        ok = False
+    if not ok:
+        return ("returned frame's trailing CheckSum %r does not match its bytes" % v, None)
+    if not (len(v) == 3 and v.isdigit()):
+        return ("CheckSum value %r is not three digits" % v, "D8-checksum-field-lenient")
+    return None
+
+
 def oracle_decode(ctx, raw, res, what):
+    bad = accept_unsound(res)
+    if bad:
+        ctx.fail({"bytes": raw.hex(), "kind": what}, "accepted: " + bad[0], bad[1])
     if res[0] == 1:
         ctx.fail({"bytes": raw.hex(), "kind": what}, "decode(silent) raised exception class %s" % res[1], classify_decode(raw, res))
     elif not (0 <= res[2] <= len(raw)):
@@ -106,6 +146,12 @@ def classify_accept(orig, kind, pos, mutated):
 def classify_followup(b):
     """why a malformed piece b keeps later valid frames from being delivered: known causes only"""
     d = cc.impl_decode(b)
+    for _ in range(8):          # frames at the front that decode fine are not the culprit
+        if d[0] == 0 and d[1] and 0 < d[2] <= len(b):
+            b = b[d[2]:]
+            d = cc.impl_decode(b)
+        else:
+            break
     if d[0] == 1:
         return "D7-stall-after-raise"
     i = b.find(b"8=FIX.")
@@ -151,7 +197,7 @@ def run(ctx):
             b[rng.randrange(len(b))] = rng.randrange(256)
         cases.append(("multi-corrupt", None, None, None, bytes(b)))
     for f in corpus_frames:
-        for g in grammar_cases(rng, f):
+        for g in grammar_cases(rng, f) + dup_checksum_cases(f):
             cases.append(("grammar", None, None, None, g))
         for (kind, pos, b) in mutations(rng, f, thorough and len(cases) < 400000):
             cases.append(("single-" + kind, f, kind, pos, b))
